@@ -30,6 +30,78 @@ impl Eng {
         e.open().expect("open");
         e
     }
+    /// a case directory without a database yet (for the bulk loader, which refuses an existing file)
+    pub fn empty() -> Self {
+        std::panic::set_hook(Box::new(|_| {}));
+        let dir = crate::util::fast_tempdir();
+        Eng { dir, engine: None, nodes: 0, edges: Vec::new(), props: BTreeMap::new(), label: None }
+    }
+
+    /// build the database with the offline bulk loader: n nodes (label L, external ids 1000+k, every third
+    /// one with property p = k), the first m edges of the enumeration k -> (k % n, (k % n + 1 + k / n) % n)
+    pub fn bulk(&mut self, n: u32, m: u32) -> String {
+        use nervusdb_storage::bulkload::{BulkEdge, BulkLoader, BulkNode};
+        if self.engine.is_some() || self.ndb().exists() {
+            return "exists".into();
+        }
+        let ndb = self.ndb();
+        let r = catch_unwind(AssertUnwindSafe(|| -> Result<(), String> {
+            let mut bl = BulkLoader::new(ndb).map_err(|e| e.to_string())?;
+            for k in 0..n {
+                let mut properties = BTreeMap::new();
+                if k % 3 == 0 {
+                    properties.insert("p".to_string(), PropertyValue::Int(k as i64));
+                }
+                bl.add_node(BulkNode { external_id: 1000 + k as u64, label: "L".to_string(), properties })
+                    .map_err(|e| e.to_string())?;
+            }
+            for k in 0..m {
+                let a = k % n;
+                let b = (a + 1 + k / n) % n;
+                bl.add_edge(BulkEdge {
+                    src_external_id: 1000 + a as u64,
+                    rel_type: "R".to_string(),
+                    dst_external_id: 1000 + b as u64,
+                    properties: BTreeMap::new(),
+                })
+                .map_err(|e| e.to_string())?;
+            }
+            bl.commit().map_err(|e| e.to_string())
+        }));
+        match r {
+            Ok(Ok(())) => {
+                self.nodes = n;
+                for k in 0..m {
+                    let a = k % n;
+                    self.edges.push((a, (a + 1 + k / n) % n));
+                }
+                for k in (0..n).step_by(3) {
+                    self.props.insert(k, k as i64);
+                }
+                match self.open() {
+                    Ok(()) => "ok".into(),
+                    Err(m) => {
+                        eprintln!("bulk: open: {}", m);
+                        "err".into()
+                    }
+                }
+            }
+            Ok(Err(e)) => {
+                eprintln!("bulk: {}", e);
+                "err".into()
+            }
+            Err(_) => "panic".into(),
+        }
+    }
+
+    /// what Db::close does: checkpoint-on-close (rewrites the WAL as one snapshot tx when no run is
+    /// pending), then drop the engine
+    pub fn checkpoint_close(&mut self) -> String {
+        let r = self.guarded(|s| s.eng().checkpoint_on_close().map_err(|e| e.to_string()));
+        self.engine = None;
+        r
+    }
+
     pub fn ndb(&self) -> PathBuf {
         self.dir.path().join("g.ndb")
     }
